@@ -87,7 +87,7 @@ fn run_case(kit: &Kit, rt: &tokio::runtime::Runtime, case: &Value, n: usize, tra
         }
         cur = *idx;
     }
-    let deviation = if accepted == json!(true) && following { "following_epoch_link" } else { "none" };
+    let dev_following = accepted == json!(true) && following;
     let proj: Vec<Value> = certs.iter().map(|c| kit.project(c)).collect();
     if accepted == json!(true) {
         stats.accepted += 1;
@@ -108,7 +108,7 @@ fn run_case(kit: &Kit, rt: &tokio::runtime::Runtime, case: &Value, n: usize, tra
         "walk": walk.iter().map(|(h, i)| json!([Kit::short(h), i])).collect::<Vec<_>>(),
         "accepted": accepted, "err": err,
         "predicted": case.get("impl").cloned().unwrap_or(json!("none")),
-        "deviation": deviation,
+        "dev_following": dev_following, "dev_cache_forged": false, "dev_cache_tainted": false,
     }));
 }
 
